@@ -253,6 +253,24 @@ def run_ebnf(case):
                 failures.append(fail("from_ebnf", "box_language", {"head": h, "word": w, "text": text}))
         if rsa.start_nonterminal.value != "S":
             failures.append(fail("from_ebnf", "start_nonterminal", repr(rsa.start_nonterminal)))
+        # one box per non-terminal: the boxes do not share their automaton (two heads may have the same body); an
+        # edit of one box's automaton leaves the language of every other box as it was
+        heads = sorted(by_head)
+        if len(heads) >= 2 and not failures:
+            boxes = {h: rsa.get_box_by_nonterminal(h) for h in heads}
+            before = {h: ref_fa.from_lib(boxes[h].dfa) for h in heads}
+            edited = heads[len(text) % len(heads)]
+            d = boxes[edited].dfa
+            for st_ in list(d.start_states):
+                d.add_final_state(st_)
+                d.add_transition(st_, "zz", st_)
+            for h in heads:
+                if h == edited:
+                    continue
+                M = ref_fa.from_lib(boxes[h].dfa)
+                if ref_fa.equivalent(before[h], M, before[h].alphabet | M.alphabet | {"zz"}) is not None:
+                    failures.append(fail("from_ebnf", "boxes_share_an_automaton", {"edited": edited, "changed": h}))
+                    break
     h0, ast0, t0 = next(((h, a, t) for h, a, t in lines if a is not None), (None, None, None))
     if ast0 is not None:
         with guard(failures, "from_regex"):
